@@ -20,12 +20,19 @@ import (
 	"verifharness/vh"
 )
 
-var hubNodes sync.Map // *hub.Hub -> *node
+var hubNodes sync.Map // *hub.Hub -> *hubRef
+
+// hubRef: the node a hub belongs to and which incarnation of it the hub is
+type hubRef struct {
+	n   *node
+	gen int
+}
 
 type liveConn struct {
 	id   int
 	n    *node
 	role string
+	gen  int // incarnation of the hub that created the connection
 	mu   sync.Mutex
 	conn *ship.ShipConnection
 	w    api.WebsocketDataWriterInterface
@@ -70,7 +77,12 @@ func (lc *liveConn) begin() (par, nested bool, end func()) {
 	}
 }
 
-func (lc *liveConn) ev(k, v, id string) { lc.n.l.addc(lc.n.name, lc.id, k, v, id) }
+func (lc *liveConn) ev(k, v, id string) {
+	lc.n.mu.Lock()
+	old := lc.gen != lc.n.gen
+	lc.n.mu.Unlock()
+	lc.n.l.addc(lc.n.name, lc.id, k, v, id, old)
+}
 
 // entry / exit of an entry point; "par" marks an entry that started while another one was in progress
 func (lc *liveConn) enter(kind string) func() {
@@ -193,10 +205,11 @@ func installLive() {
 		if !ok {
 			return p, w
 		}
-		n := x.(*node)
+		ref := x.(*hubRef)
+		n := ref.n
 		n.mu.Lock()
 		n.nconn++
-		lc := &liveConn{id: n.connBase + n.nconn, n: n, role: role, w: w}
+		lc := &liveConn{id: n.connBase + n.nconn, n: n, role: role, w: w, gen: ref.gen}
 		n.conns = append(n.conns, lc)
 		n.mu.Unlock()
 		lc.ev("c.new", role, "")
